@@ -500,6 +500,23 @@ def run(R):
         else:
             R.ok('C15.ATM.1', inst, site(cx, cx.f.node), f'{len(inserts)} insert(s), {len(commits)} commit(s)')
 
+    # ------------------------------------------------------------------ ATM.2 key generation never replaces an existing private key
+    R.ob('C15.ATM.2', 'the private-key store writes the file of a newly generated key only when no key of that name exists (a key id given '
+                      'twice must fail before the existing key is replaced, not after)')
+    gk = ctx(R, 'ndn.security.tpm.tpm_file.TpmFile.generate_key')
+    saves = [(n, c) for (n, c) in calls_in_ctx(gk, attr='save_key') if c.args]
+    R.need(saves, 'TpmFile.generate_key: no save_key call found')
+    for (n, c) in saves:
+        kn = ast.unparse(c.args[0])
+        inst = f'{gk.qual} :: {norm(c)[:60]}'
+        exist_t = [t for t in gk.cfg.nodes if t.kind == 'test' and isinstance(t.ast, ast.Call) and callee_attr(t.ast) == 'key_exist' and t.ast.args
+                   and ast.unparse(t.ast.args[0]) == kn]
+        if exist_t and n.id not in gk.cfg.reachable(removed_edges={(t.id, False) for t in exist_t}, follow_exc=False):
+            R.ok('C15.ATM.2', inst, site(gk, c))
+        else:
+            R.fail('C15.ATM.2', inst, gk.qual, c, f'the key file for `{kn}` is written whether or not a key of that name exists: new_key(..., key_id=X) for an existing '
+                   'X replaces the private key of the existing key and only then fails on the UNIQUE constraint, leaving a key whose certificate no longer matches '
+                   'what it signs with (repro notes/repro/e19.py)', site(gk, c))
     # ------------------------------------------------------------------ SIB.2 TpmFile naming
     R.ob('C15.SIB.2', 'TpmFile derives the private-key file name from the same encoding of the key name in every method')
     TF = 'ndn.security.tpm.tpm_file.TpmFile'
